@@ -498,6 +498,19 @@ func profileFor(prop string) *Profile {
 		p.W["gov_update"] = 5
 		p.Dust = 0.3
 		p.PHalt = 0.08
+	case "C06", "C07", "C08":
+		p.PSlash, p.PEvidence, p.PDowntime = 0.18, 0.06, 0.05
+		p.W["undelegate"], p.W["redelegate"] = 22, 24
+		p.W["gov_create"], p.W["gov_update"], p.W["gov_delete"], p.W["gov_params"] = 1, 1, 0, 0
+		p.SameBlock = 0.7
+		p.PBoundary = 0.3
+		p.MaxBlocks = 45
+	case "C02":
+		p.W["undelegate"] = 30
+		p.W["gov_staking_params"] = 3
+		p.SameBlock = 0.7
+		p.PBoundary = 0.4
+		p.PSlash = 0.1
 	case "C16":
 		p.GovWild = true
 		p.ParamsWild = true
